@@ -37,3 +37,16 @@ func init() {
 			Old: "\t\tselect {\n\t\tcase <-doneCh:\n\t\t\tbreak process\n\t\tcase receiver.messageCh <- msg:\n\t\t}", New: "\t\t_ = doneCh\n\t\tselect {\n\t\tcase <-receiver.ctx.Done():\n\t\t\tbreak process\n\t\tcase receiver.messageCh <- msg:\n\t\t}"},
 	}
 }
+
+func init() {
+	variants["C17"] = append(variants["C17"],
+		variant{Name: "relay forwards quality reports under its own long-lived context", Kill: true, Rule: "C17-CTX", File: fSuperior,
+			Old: "\treturn rs.writer.WriteReportQualities(ctx, resp.(*protocol.ReportQualities))", New: "\treturn rs.writer.WriteReportQualities(rs.ctx, resp.(*protocol.ReportQualities))"},
+		variant{Name: "receive buffer reused across frames", Kill: true, Rule: "C17-OWN", File: fConn,
+			Old:   "\t\tdata := make([]byte, size)\n",
+			New:   "\t\tif uint32(cap(buf)) < size {\n\t\t\tbuf = make([]byte, size)\n\t\t}\n\t\tdata := buf[:size]\n",
+			File2: fConn, Old2: "\tvar msgSizeBytes [4]byte\n\tvar err error\n\tvar doneCh = conn.ctx.Done()\nroutine:", New2: "\tvar msgSizeBytes [4]byte\n\tvar err error\n\tvar buf []byte\n\tvar doneCh = conn.ctx.Done()\nroutine:"},
+		variant{Name: "context derived with a timeout from the caller's context", Kill: false, File: fSuperior,
+			Old: "\treturn rs.writer.WriteReportProof(ctx, resp.(*protocol.ReportProof))", New: "\ttctx, cancel := context.WithTimeout(ctx, time.Minute)\n\tdefer cancel()\n\treturn rs.writer.WriteReportProof(tctx, resp.(*protocol.ReportProof))"},
+	)
+}
